@@ -238,8 +238,8 @@ int lp_value_add_approx(const lp_value_t* v1, const lp_value_t* v2, lp_value_t* 
     // Cast to the same type
     int cast = lp_value_to_same_type(v1, v2, &v1_tmp, &v2_tmp, &v1_to_use, &v2_to_use);
     if (cast) {
-      // Cast successful, just add as usual
-      lp_value_add_approx(v1_to_use, v2_to_use, lb, ub);
+      // Cast successful, just add as usual (the sum of algebraic numbers is approximated)
+      is_point = lp_value_add_approx(v1_to_use, v2_to_use, lb, ub);
       // If a fesh value was used, delete it
       if (v1_to_use != v1) {
         lp_value_destruct(&v1_tmp);
@@ -792,8 +792,8 @@ int lp_value_mul_approx(const lp_value_t* v1, const lp_value_t* v2, lp_value_t* 
     // Cast to the same type
     int cast = lp_value_to_same_type(v1, v2, &v1_tmp, &v2_tmp, &v1_to_use, &v2_to_use);
     if (cast) {
-      // Cast successful, just add as usual
-      lp_value_mul_approx(v1_to_use, v2_to_use, lb, ub);
+      // Cast successful, just multiply as usual (the product of algebraic numbers is approximated)
+      is_point = lp_value_mul_approx(v1_to_use, v2_to_use, lb, ub);
       // If a fesh value was used, delete it
       if (v1_to_use != v1) {
         lp_value_destruct(&v1_tmp);
